@@ -70,7 +70,7 @@ func (p *c04) Cases(tier string, emit func(interface{})) {
 		for _, lf := range typesLeaves() {
 			emit(c04Case{Part: "values", Schema: "types", Source: src, Leaf: lf})
 		}
-		for _, sc := range []string{"base", "keys", "choice"} {
+		for _, sc := range []string{"base", "keys", "choice", "multi"} {
 			emit(c04Case{Part: "trees", Schema: sc, Source: src, B: c04B(tier)})
 		}
 		emit(c04Case{Part: "lists", Schema: "base", Source: src})
